@@ -527,7 +527,7 @@ static ares_status_t ares_append_requeue(ares_array_t **requeue,
   if (*requeue == NULL) {
     *requeue = ares_array_create(sizeof(ares_requeue_t), NULL);
     if (*requeue == NULL) {
-      return ARES_ENOMEM;
+      goto fail;
     }
   }
 
@@ -535,7 +535,17 @@ static ares_status_t ares_append_requeue(ares_array_t **requeue,
 
   entry.qid    = query->qid;
   entry.server = server;
-  return ares_array_insertdata_last(*requeue, &entry);
+  if (ares_array_insertdata_last(*requeue, &entry) == ARES_SUCCESS) {
+    return ARES_SUCCESS;
+  }
+
+fail:
+  /* The query could not be recorded for re-sending.  By now it may be partly
+   * or fully detached from its connection, so nothing would ever answer it or
+   * time it out (and it could be left pointing at a connection that is about
+   * to be closed).  Fail it right away. */
+  end_query(query->channel, NULL, query, ARES_ENOMEM, NULL);
+  return ARES_ENOMEM;
 }
 
 static ares_status_t read_answers(ares_conn_t *conn, const ares_timeval_t *now)
